@@ -208,7 +208,7 @@ pub fn decode_c04(data: &[u8]) -> Vec<c04::Op> {
             let x = byte(u);
             ((x % 40) as u16, if x % 5 == 0 { None } else { Some((x / 40) as i8 - 3) })
         };
-        ops.push(match b % 20 {
+        ops.push(match b % 23 {
             0..=5 => {
                 let n = (byte(&mut u) % 5) as usize;
                 Op::Push((0..n).map(|_| ind(&mut u)).collect())
@@ -221,6 +221,9 @@ pub fn decode_c04(data: &[u8]) -> Vec<c04::Op> {
             16 => if b >= 128 { Op::Nest(byte(&mut u) % 3) } else { Op::CompRotate(1 + byte(&mut u) % 6) },
             17 => [Op::CompClear, Op::CompDuplicate][(b / 20) as usize % 2].clone(),
             18 => Op::CompInterleave,
+            20 => Op::ScopedEdit(byte(&mut u) % 3, byte(&mut u) % 3, ind(&mut u)),
+            21 => Op::ShadowedAccess(byte(&mut u) % 2),
+            22 => Op::ScopedHoldFail(byte(&mut u) % 3, ind(&mut u)),
             _ => Op::CompSplit,
         });
     }
